@@ -283,6 +283,163 @@ Fixpoint session (cs : list (calc * option nat * bool)) (n : net) : net :=
   | (c, k, conv) :: r => session r (fst (fst (exec (pl_of c n) k conv n)))
   end.
 
+(* ================================================================== state estimation and contingency analysis
+   Anchors: estimation/state_estimation.py StateEstimation.estimate (:225-263: try (:237) / finally (:259-263) around
+   set_bb_switch_impedance, pp2eppci, the solver, eppci2pp), estimation/util.py set_bb_switch_impedance (:103-127, every
+   _get_bus_ppc_mapping (:58-79) runs a complete power flow runpp(net) on the user's net), reset_bb_switch_impedance
+   (:136-138); contingency/contingency.py run_contingency (:99-117: the outage assignment :103 stands in FRONT of the
+   try statement :104, `except Exception` (:108-111) swallows unless raise_errors, `finally` (:112-113) restores; since the repair the assignment stands inside the try statement, :103-107).
+   The state extends the element tables of the pipelines above by the switch impedance column(s) and the in_service cells. *)
+Record xnet := {
+  x_net : net;
+  sw_z : option (list Z);         (* net.switch.z_ohm (scaled cell contents), None = no such column *)
+  sw_ori : option (list Z);       (* net.switch.z_ohm_ori, None = no such column (the normal state) *)
+  serv : nat -> Z -> bool;        (* net[<table t>].in_service at index i *)
+  has : nat -> Z -> bool          (* index i exists in table t *)
+}.
+Definition with_net (s : xnet) (n : net) : xnet :=
+  {| x_net := n; sw_z := sw_z s; sw_ori := sw_ori s; serv := serv s; has := has s |}.
+Definition with_sw (s : xnet) (z o : option (list Z)) : xnet :=
+  {| x_net := x_net s; sw_z := z; sw_ori := o; serv := serv s; has := has s |}.
+Definition z_nan : Z := -1.
+Definition Z_IMP : Z := 410.      (* z_ohm = 0.1 in the cell scaling of the harness (x 4096, rounded) *)
+Fixpoint set_sel (sel : list bool) (v : Z) (z : list Z) : list Z :=
+  match sel, z with
+  | b :: sr, x :: zr => (if b then v else x) :: set_sel sr v zr
+  | _, _ => z
+  end.
+
+Inductive xop :=
+| XSaveZ                                 (* util.py:103-104  if 'z_ohm' in net.switch: net.switch['z_ohm_ori'] = net.switch['z_ohm'] *)
+| XSetZ (sel : list bool) (v : Z)        (* :113 / :124      net.switch.loc[sel, 'z_ohm'] = v *)
+| XResetZ                                (* :136-138         z_ohm := z_ohm_ori; drop z_ohm_ori *)
+| XSetServ (t : nat) (i : Z) (v : bool)  (* contingency.py:103 / :113 *)
+| XCalc (c : calc) (conv : bool)         (* a complete calculation on the element tables (with its own try statement) *)
+| XStage                                 (* a stage that touches no element table (pp2eppci, solver, eppci2pp, result
+                                            bookkeeping; also the position of the `try:` line) *)
+| XRaiseIf (b : bool).                   (* a raise statement under a condition *)
+
+Definition xapply1 (a : xop) (s : xnet) : xnet :=
+  match a with
+  | XSaveZ => match sw_z s with Some z => with_sw s (sw_z s) (Some z) | None => s end
+  | XSetZ sel v => with_sw s (Some (match sw_z s with
+                                    | Some z => set_sel sel v z
+                                    | None => map (fun b : bool => if b then v else z_nan) sel end)) (sw_ori s)
+  | XResetZ => match sw_ori s with Some o => with_sw s (Some o) None | None => s end
+  | XSetServ t i v =>
+      {| x_net := x_net s; sw_z := sw_z s; sw_ori := sw_ori s;
+         serv := fun t' i' => if Nat.eqb t' t && Z.eqb i' i then v else serv s t' i'; has := has s |}
+  | _ => s
+  end.
+
+(* the pipelines above with the remaining fault budget handed back (None after an injected fault) *)
+Definition exec_k (p : pipeline) (k : option nat) (conv : bool) (n : net) : net * outcome * option nat :=
+  let '(n1, o1, k1, _) := run (p_pre p) k conv n in
+  match o1 with
+  | Raised => (n1, Raised, k1)
+  | Done =>
+      let '(n2, o2, k2, _) := run (p_body p) k1 conv n1 in
+      match o2 with
+      | Done => (n2, Done, k2)
+      | Raised => (fold_left (fun m a => apply a m) (p_handler p) n2, Raised, k2)
+      end
+  end.
+
+(* XRaised e: e = the exception is an instance of Exception (false: BaseException only, e.g. KeyboardInterrupt) *)
+Inductive xout := XDone | XRaised (e : bool).
+Definition deck (k : option nat) : option nat := match k with Some (S j) => Some j | _ => None end.
+
+(* one operation; exn = kind of the injected fault.  A natural failure inside a nested calculation is an Exception and
+   leaves the fault budget untouched (the fault may still hit a later outage case). *)
+Definition xstep (exn : bool) (a : xop) (k : option nat) (s : xnet) : xnet * xout * option nat :=
+  match a with
+  | XCalc c conv =>
+      let '(n', o, k') := exec_k (pl_of c (x_net s)) k conv (x_net s) in
+      match o with
+      | Done => (with_net s n', XDone, k')
+      | Raised => (with_net s n', XRaised (match k, k' with Some _, None => exn | _, _ => true end), k')
+      end
+  | _ =>
+      match k with
+      | Some O => (s, XRaised exn, None)
+      | _ => match a with
+             | XRaiseIf true => (s, XRaised true, deck k)
+             | _ => (xapply1 a s, XDone, deck k)
+             end
+      end
+  end.
+
+Fixpoint xrun_ops (exn : bool) (ops : list xop) (k : option nat) (s : xnet) : xnet * xout * option nat :=
+  match ops with
+  | [] => (s, XDone, k)
+  | a :: r => let '(s1, o, k1) := xstep exn a k s in
+              match o with XDone => xrun_ops exn r k1 s1 | _ => (s1, o, k1) end
+  end.
+(* finally blocks run without a fault of their own (no double faults) *)
+Definition xfin (fin : list xop) (s : xnet) : xnet := fold_left (fun m a => xapply1 a m) fin s.
+(* try: body  [except Exception: swallow ? log : raise]  finally: fin *)
+Definition xrun_try (exn : bool) (body : list xop) (swallow : bool) (fin : list xop) (k : option nat) (s : xnet)
+  : xnet * xout * option nat :=
+  let '(s1, o, k1) := xrun_ops exn body k s in
+  let s2 := xfin fin s1 in
+  match o with
+  | XDone => (s2, XDone, k1)
+  | XRaised e => if e && swallow then (s2, XDone, k1) else (s2, XRaised e, k1)
+  end.
+
+(* ---- StateEstimation.estimate.  bb = (fuse_buses_with_bb_switch != 'all' and not net.switch.empty); badarg = the
+   argument is a string other than 'all'; rounds = per loop pass of set_bb_switch_impedance the selected switches and,
+   if buses got detached, the switches fused again (values computed from the lookups: inputs); the nested power flows
+   fail (KeyError) when the switch table has no z_ohm column; success = the solver verdict *)
+Definition est_body (bb badarg noz : bool) (rounds : list (list bool * option (list bool))) (conv_pf success : bool)
+  : list xop :=
+  (if bb then
+     XRaiseIf badarg :: XSaveZ :: XRaiseIf noz :: XCalc CPf conv_pf ::
+     flat_map (fun r => XSetZ (fst r) Z_IMP :: XCalc CPf conv_pf ::
+                        match snd r with Some u => [XSetZ u 0; XCalc CPf conv_pf] | None => [] end) rounds
+   else []) ++ XStage :: XStage :: (if success then [XStage] else []).
+Definition no_z (s : xnet) : bool := match sw_z s with None => true | Some _ => false end.
+Definition run_estimate (exn bb badarg : bool) (rounds : list (list bool * option (list bool))) (conv_pf success : bool)
+  (k : option nat) (s : xnet) : xnet * xout * option nat :=
+  xrun_try exn (est_body bb badarg (no_z s) rounds conv_pf success) false (if bb then [XResetZ] else []) k s.
+
+(* ---- run_contingency.  One outage case (table t, index i, verdict of its power flow); c = the evaluation function.
+   inside = the outage assignment stands inside the try statement (true = the code as it is after the repair, contingency.py:103-107;
+   false = before it: assignment in front of the try statement); window = there is a fault point between the assignment and the try statement (an asynchronous exception, e.g.
+   KeyboardInterrupt, delivered on the `try:` line - observable with a line-level fault on the real code) *)
+Definition xrun_case (exn window inside swallow : bool) (c : calc) (cs : nat * Z * bool) (k : option nat) (s : xnet)
+  : xnet * xout * option nat :=
+  let '(t, i, conv) := cs in
+  if negb (has s t i) then (s, XRaised true, k)                 (* KeyError from .at *)
+  else if negb (serv s t i) then (s, XDone, k)                  (* :101-102 continue *)
+  else if inside then
+    xrun_try exn [XSetServ t i false; XCalc c conv; XStage] swallow [XSetServ t i true] k s
+  else
+    let '(s1, o, k1) := xrun_ops exn (XSetServ t i false :: if window then [XStage] else []) k s in
+    match o with
+    | XDone => xrun_try exn [XCalc c conv; XStage] swallow [XSetServ t i true] k1 s1
+    | _ => (s1, o, k1)
+    end.
+Fixpoint xrun_cases (exn window inside swallow : bool) (c : calc) (cs : list (nat * Z * bool)) (k : option nat) (s : xnet)
+  : xnet * xout * option nat :=
+  match cs with
+  | [] => (s, XDone, k)
+  | x :: r => let '(s1, o, k1) := xrun_case exn window inside swallow c x k s in
+              match o with XDone => xrun_cases exn window inside swallow c r k1 s1 | _ => (s1, o, k1) end
+  end.
+(* :99-113 the N-1 loop, :116-117 the N-0 case, :119-125 results written to res_* tables only *)
+Definition run_contingency (exn window inside raise_errors : bool) (c : calc) (cs : list (nat * Z * bool)) (conv0 : bool)
+  (k : option nat) (s : xnet) : xnet * xout * option nat :=
+  let '(s1, o, k1) := xrun_cases exn window inside (negb raise_errors) c cs k s in
+  match o with
+  | XDone => xrun_ops exn [XCalc c conv0; XStage; XStage] k1 s1
+  | _ => (s1, o, k1)
+  end.
+(* the code as it is in /repo after the repair "run_contingency sets the outage inside the try statement that restores it";
+   inside = false is the layout before that repair (run_contingency_old) *)
+Definition CONTINGENCY_OUTAGE_INSIDE_TRY : bool := true.
+Definition run_contingency_old (exn window raise_errors : bool) := run_contingency exn window false raise_errors.
+
 (* ---- output for the correspondence run *)
 Definition ovname (v : vname) : out :=
   match v with NB2B i p => OL [OZ i; OB p] | NOther m => OZ m end.
@@ -298,3 +455,22 @@ Definition run_calc (c : nat) (k : option nat) (conv : bool) (n : net) : out :=
   run_exec (pl_of (calc_of_nat c) n) k conv n.
 Definition run_calc_old (c : nat) (k : option nat) (conv : bool) (n : net) : out :=
   run_exec (match c with O => pl_powerflow_old n | 1%nat => pl_opf_old n | _ => pl_powerflow_mid n end) k conv n.
+
+(* estimate / run_contingency: final state (tables digest, switch columns, in_service cells at the given keys), outcome *)
+Definition oxout (o : xout) : out := match o with XDone => OS "done" | XRaised true => OS "exception" | XRaised false => OS "base" end.
+Definition oxnet (keys : list (nat * Z)) (s : xnet) : out :=
+  OL [ onet (x_net s); oopt (olist OZ) (sw_z s); oopt (olist OZ) (sw_ori s); olist (fun q => OB (serv s (fst q) (snd q))) keys ].
+Definition mk_xnet (n : net) (z o : option (list Z)) (inserv : list (list Z)) (rows : list (list Z)) : xnet :=
+  {| x_net := n; sw_z := z; sw_ori := o;
+     serv := fun t i => memz i (nth t inserv []); has := fun t i => memz i (nth t rows []) |}.
+Definition run_est (exn bb badarg : bool) (rounds : list (list bool * option (list bool))) (conv_pf success : bool)
+  (k : option nat) (s : xnet) : out :=
+  let '(s', o, _) := run_estimate exn bb badarg rounds conv_pf success k s in OL [oxnet [] s'; oxout o].
+Definition run_cont (exn window raise_errors : bool) (c : nat) (cs : list (nat * Z * bool)) (conv0 : bool) (keys : list (nat * Z))
+  (k : option nat) (s : xnet) : out :=
+  let '(s', o, _) := run_contingency exn window CONTINGENCY_OUTAGE_INSIDE_TRY raise_errors (calc_of_nat c) cs conv0 k s in
+  OL [oxnet keys s'; oxout o].
+(* the state at the moment the fault leaves the try body (in front of the finally block) *)
+Definition run_est_at (exn bb badarg : bool) (rounds : list (list bool * option (list bool))) (conv_pf success : bool)
+  (k : option nat) (s : xnet) : out :=
+  let '(s', o, _) := xrun_ops exn (est_body bb badarg (no_z s) rounds conv_pf success) k s in OL [oxnet [] s'; oxout o].
